@@ -10,7 +10,7 @@ import (
 
 func init() {
 	register("C27", []string{"./sstable/...", "./objstorage"}, runC27)
-	propExplain["C27"] = "Decides the gating clause of C27: in block.Reader.doRead the bytes read are used (compression indicator, decompression, block metadata init, successful return) only through the nil-error edges of the read and of the checksum validation; every function of the sstable packages that validates a block checksum returns success only if the validation passed; a failed read is never put into the block cache as a value; the table footer's block handles are decoded only after the footer checksum matched (for formats that have one); raw object reads inside the sstable packages occur only in the listed owners. (K1) the one-block caches of the value fetchers (valblk.valueBlockFetcher, blob.cachedReader) record which block they hold only on the nil-error edge of that block's verified read, and the blob reader marks its block not-loaded before it replaces the buffer. Does not decide checksum collision probability or legacy footers without a checksum."
+	propExplain["C27"] = "Decides the gating clause of C27: in block.Reader.doRead the bytes read are used (compression indicator, decompression, block metadata init, successful return) only through the nil-error edges of the read and of the checksum validation; every function of the sstable packages that validates a block checksum returns success only if the validation passed; a failed read is never put into the block cache as a value; the table footer's block handles are decoded only after the footer checksum matched (for formats that have one); raw object reads inside the sstable packages occur only in the listed owners. (K1) the one-block caches of the value fetchers (valblk.valueBlockFetcher, blob.cachedReader) record which block they hold only on the nil-error edge of that block's verified read, and the blob reader marks its block not-loaded before it replaces the buffer; singleLevelIterator.loadDataBlock returns with its data-block iterator invalid, untouched, or initialised from the block its recorded handle names. Does not decide checksum collision probability or legacy footers without a checksum."
 }
 
 func runC27(c *Ctx) {
@@ -179,6 +179,31 @@ func runC27K1(c *Ctx) {
 		}
 		if len(instrs(fn, read)) == 0 {
 			c.Unresolved("C27.K1", "the value-block read (ReadValueBlock of getBlockHandle's result) was not found in getValueInternal")
+		}
+	}
+	// sstable iterators: dataBH is the tag of the data-block iterator i.data, and the hit test is
+	// `i.dataBH == handle && i.data.Valid()`. The tag is (deliberately) stored before the read, so
+	// coherence means: at every return, either the tag was not touched, or the data iterator is
+	// invalidated, or it was (re)initialised from the block read through the new tag.
+	if fn := c.Fn("C27.K1", "sst.(*singleLevelIterator).loadDataBlock"); fn != nil {
+		tag := StoreTo(c.Field("C27.K1", "sst.singleLevelIterator.dataBH"))
+		inval := MethodOn("Invalidate", "recv.data")
+		initH := MethodOn("InitHandle", "recv.data")
+		fl := NewFlow(c.P).
+			KillAfter("tag-unchanged", Or(tag, initH)).
+			After("data-invalid", inval).KillAfter("data-invalid", initH).
+			After("data-matches-tag", initH).KillAfter("data-matches-tag", tag).
+			KillAfter("coherent", Or(tag, initH, inval)).
+			Derive("coherent", []string{"tag-unchanged"}, []string{"data-invalid"}, []string{"data-matches-tag"})
+		fl.MaxDepth = 0
+		entry := emptyState()
+		entry.add("tag-unchanged")
+		entry.add("coherent")
+		res := fl.Analyze(fn, entry)
+		c.noteFlow(fl)
+		c.Require("C27.K1", res, AnyReturn, "on return the data iterator is invalid, untouched, or initialised from the block its handle names", []string{"coherent"})
+		if len(instrs(fn, tag)) == 0 || len(instrs(fn, initH)) == 0 || len(instrs(fn, inval)) == 0 {
+			c.Unresolved("C27.K1", "dataBH store / data.InitHandle / data.Invalidate not found in loadDataBlock")
 		}
 	}
 	// sstable/blob: currentValueBlock.{loaded, virtualID} are the tag of currentValueBlock.buf
